@@ -35,8 +35,7 @@ def make_mixed(ctx, count, length):
             s.frame(1, W.reset(net.mappers[1], tos=0))
         s.add("OPT ledger=1")
         s.add("MARK start")
-        for fr in frames:
-            s.frame(0, fr)
+        s.frames(0, frames, rng if i % 4 >= 2 else None, p_gap=0.1)
         s.frame(0, W.reset(net.mappers[0], tos=0))
         s.meta["frames"] = frames + [W.reset(net.mappers[0], tos=0)]
         if two:
@@ -363,3 +362,4 @@ def run(ctx):
     rep.need("plateau_checked or violation", c.get("plateau_checked", 0) + sum(1 for k in rep.viol if k.startswith("C19:retained")), 2)
     rep.need("multi_iface_rounds", c.get("multi_iface_rounds", 0), ctx.n(1000, 50000))
     rep.need("mixed_frames", c.get("mixed_frames", 0), ctx.n(700000, 17 * 10 ** 6))
+    rep.need("clock_gaps_between_frames", rep.counters.get("clock_gaps_between_frames", 0), 200)
